@@ -178,6 +178,10 @@ class CaseRunner:
                 for cl in ("subnetfw", "hostfw", "pivot", "passblocked", "access"):
                     todo += byc.get(cl, [])[:(120 if big and cl in ("subnetfw", "hostfw") else 14)]
                 todo = todo[:(260 if big else 48)]
+                # ... and the host-level near-misses (wrong OS, missing service / process), escalations first
+                for cl in ("os", "process", "service"):
+                    members = sorted(byc.get(cl, []), key=lambda i: h.acts[i].kind != "privesc")
+                    todo += members[:10]
                 for i in todo:
                     rec = h.exec_gen(h.env.current_state, h.mst, h.acts[i], "lo", i, opname="sweep")
                     on_rec(h, rec, None)
